@@ -34,8 +34,11 @@
 //	c01-hang               an injected batch did not come back / flush spins on zero-length writes
 //	c04-quiescent-unarmed  open, registered, non-empty queue, EPOLLOUT not armed
 //	c04-progress           EPOLLOUT delivered with kernel room did not reduce the backlog
+//	c04-et-lost-edge       ET: flush gave up on a backlog without the kernel having refused a write
 //	c17-bound              left > maxWB; left != Σ unsent buffer bytes; drained but left != 0
 //	c17-fits               a call that fits (or no bound) was not accepted / overflow reported wrongly
+//	c17-overflow           a call that exceeds the bound did not fail with ErrOverflow + close
+//	c04-hang               = c01-hang (flush does not terminate)
 package main
 
 import (
@@ -765,6 +768,19 @@ func (cs *caseState) doCall(cl *call) string {
 		if errors.Is(cerr, nbio.ErrOverflow) && (fits || !post.Closed) {
 			orc("c17-fits", "%s of %d bytes: overflow reported with left=%d maxwb=%d closed=%v", cl.kind, held, pre.Left, cs.maxwb, post.Closed)
 		}
+		// a call that would exceed the bound even after what the kernel takes directly must fail
+		// with the overflow error and close the connection
+		direct := 0
+		if len(pre.Items) == 0 && len(ans) > 0 && ans[0].Err == 0 {
+			direct = ans[0].N
+			if direct > held {
+				direct = held
+			}
+		}
+		if cs.maxwb > 0 && pre.Left+held-direct > cs.maxwb && !(errors.Is(cerr, nbio.ErrOverflow) && post.Closed) {
+			orc("c17-overflow", "%s of %d bytes with left=%d maxwb=%d (kernel takes %d): expected ErrOverflow and a closed connection, got (%d, %v) closed=%v left=%d",
+				cl.kind, held, pre.Left, cs.maxwb, direct, n, cerr, post.Closed, post.Left)
+		}
 	}
 	ex.Count("calls", cl.kind)
 	ex.Count("results", cl.kind+":"+errName(cerr))
@@ -960,6 +976,7 @@ func kv(f []string, key string) (string, bool) {
 
 func (cs *caseState) hang(what string) {
 	orc("c01-hang", "%s (mode=%s)", what, cs.mode)
+	orc("c04-hang", "%s (mode=%s)", what, cs.mode)
 	cs.dead = true
 	cs.nontrivial = true
 	res("hung")
@@ -1104,6 +1121,7 @@ func exec(e *lp.Exec) {
 				}
 				cs.v.Script = ans
 				wireBefore := len(cs.v.Wire)
+				writesBefore := cs.v.Writes
 				if cb != nil && evs&syscall.EPOLLIN != 0 {
 					cs.v.Rq = append(cs.v.Rq, 0x55)
 					cs.cbCall = cb
@@ -1118,20 +1136,38 @@ func exec(e *lp.Exec) {
 					continue
 				}
 				cs.v.Lock()
+				left := len(cs.v.Script)
+				calls := cs.v.Writes - writesBefore
 				cs.v.Script = nil
 				cs.v.Unlock()
+				cbRan := cb != nil && cs.cbCall == nil
 				cs.cbCall = nil
 				if atomic.LoadInt32(&cs.spin) != 0 {
 					cs.hang(fmt.Sprintf("flush issued more than %d consecutive zero-length writes: it spins on an empty queue item while holding the conn mutex", spinLimit))
 					continue
 				}
-				if evs&syscall.EPOLLOUT != 0 && len(ans) > 0 && ans[0].Err == 0 && ans[0].N > 0 && before > 0 {
+				first := 0 // the first answer that is not EINTR decides whether the kernel has room
+				for first < len(ans) && ans[first].Err == syscall.EINTR {
+					first++
+				}
+				if evs&syscall.EPOLLOUT != 0 && first < len(ans) && ans[first].Err == 0 && ans[first].N > 0 && before > 0 {
 					// (a data-callback call can only append behind the backlog, so progress shows on the wire)
 					cs.v.Lock()
 					wireAfter := len(cs.v.Wire)
 					cs.v.Unlock()
 					if wireAfter <= wireBefore {
-						orc("c04-progress", "EPOLLOUT with kernel room (%d bytes) and a backlog of %d bytes: nothing was transmitted", ans[0].N, before)
+						orc("c04-progress", "EPOLLOUT with kernel room (%d bytes) and a backlog of %d bytes: nothing was transmitted", ans[first].N, before)
+					}
+				}
+				// ET reports writability again only after the kernel refused a write: flush must not
+				// give up on a backlog before it has seen EAGAIN (no data callback ran, so the script
+				// bookkeeping is flush's alone)
+				if cs.mode == "et" && evs&syscall.EPOLLOUT != 0 && !cbRan && before > 0 {
+					post := cs.c.VerifWriteState(false)
+					used := len(ans) - left
+					refused := calls > int64(used) || (used > 0 && ans[used-1].Err == syscall.EAGAIN)
+					if !post.Closed && len(post.Items) > 0 && !refused {
+						orc("c04-et-lost-edge", "mode=et: flush returned with %d items queued after %d write calls none of which was refused (EAGAIN): no further EPOLLOUT edge is due", len(post.Items), calls)
 					}
 				}
 				e.Count("events", deliv)
